@@ -47,6 +47,8 @@ def systems(tier):
         ("three", [(A, "25%"), (B, "25%"), (H, "150")], None),
         ("copolymer", [(Rn, "50%"), (A, "120")], None),
         ("external-total", [(A, "40%"), (Sv, None)], 300.0),
+        ("explicit-hydrogen-caps", [({"elements": [T("[H]"), S("[$]", ["[$]CC[$]"], [], "[$]", g0(11.0)), T("[H]")], "mixture": None}, "50")], None),
+        ("explicit-hydrogen-two", [({"elements": [T("[H]"), S("[>]", ["[<]CO[>]"], [], "[<]", g0(40.0)), T("[H]")], "mixture": None}, "50%"), (A, "57")], None),
     ]
     # the accumulated mass hits the system mass exactly (float sum the library itself computes): stop, do not add one more
     mC = R.token_ref("C").mass
@@ -71,6 +73,14 @@ def systems(tier):
     return out
 
 
+def heavy_mass(smiles):
+    """heavy-atom mass of a yielded molecule, measured independently of MolGen.weight"""
+    from rdkit import Chem
+    from rdkit.Chem import Descriptors
+
+    return float(Descriptors.HeavyAtomMolWt(Chem.MolFromSmiles(smiles)))
+
+
 def sys_text(comps):
     s = ""
     for spec, mix in comps:
@@ -83,6 +93,9 @@ def sys_text(comps):
 def enumerate_cases(tier, seed):
     for name, comps, ext in systems(tier):
         yield ("system", {"name": name, "comps": comps, "ext": ext, "tier": tier})
+    # several System objects built from the same text with different externally supplied totals, in every order
+    yield ("ext-history", {"text": "OCC.|40%|c1ccccc1", "exts": [120.0, 400.0, None]})
+    yield ("ext-history", {"text": "OCC.|25%|NCCCF.|25%|CCO", "exts": [150.0, None, 333.0]})
     cfgs = list(c12.configs("quick"))
     step = 400
     for lo in range(0, len(cfgs), step):
@@ -114,6 +127,61 @@ def eval_case(kind, data):
     from gbigsmiles.system import System
 
     res = new_result()
+    if kind == "ext-history":
+        import itertools as _it
+
+        import numpy as np
+
+        text, exts = data["text"], data["exts"]
+        nh = 0
+        for hist in _it.chain.from_iterable(_it.product(exts, repeat=r) for r in (2, 3)):
+            nh += 1
+            for hi, ext in enumerate(hist):
+                res["transitions"] += 1
+                try:
+                    obj = gbigsmiles.System(text, ext)
+                    gable = bool(obj.generable)
+                except Exception as e:  # noqa
+                    viol(res, "C13|ext-history|constructor-raises", f"System({text!r}, {ext}) after {list(hist[:hi])}: {type(e).__name__}: {str(e)[:80]}", {"text": text, "hist": list(hist)})
+                    break
+                if ext is None:
+                    if gable:
+                        viol(res, "C13|ext-history|massless-system-generable", f"System({text!r}) without a total is generable after systems with totals {list(hist[:hi])} were built from the same text", {"text": text, "hist": list(hist)})
+                        break
+                    try:
+                        obj.generate(rng=np.random.default_rng(1))
+                        viol(res, "C13|ext-history|massless-system-generates", f"System({text!r}) without a total generates after {list(hist[:hi])}", {"text": text, "hist": list(hist)})
+                        break
+                    except Exception:  # noqa
+                        continue
+                if not gable:
+                    viol(res, "C13|ext-history|refuses", f"System({text!r}, {ext}) is not generable after {list(hist[:hi])}", {"text": text, "hist": list(hist)})
+                    break
+                old = System.generator.fget.__defaults__
+                System.generator.fget.__defaults__ = (np.random.default_rng(10 + hi),)
+                try:
+                    acc = 0.0
+                    cnt = 0
+                    over = False
+                    for mg in obj.generator:
+                        if acc >= ext - 1e-9:
+                            over = True
+                        acc += heavy_mass(mg.smiles)
+                        cnt += 1
+                        if cnt > 400:
+                            break
+                finally:
+                    System.generator.fget.__defaults__ = old
+                if acc < ext - 1e-9 or over:
+                    viol(res, "C13|ext-history|wrong-total", f"System({text!r}, {ext}) built after totals {list(hist[:hi])}: iteration accumulates {acc:.3f} ({'continues past' if over else 'stops before'} its total {ext})", {"text": text, "hist": list(hist)})
+                    break
+        res["states"] = nh
+        res["traces"] = nh
+        res["evals"] = nh
+        res["nontrivial"] = ["ext-history", text, nh]
+        res["outcomes"] = [f"ext-history:{nh}"]
+        res["sample"] = {"text": text, "totals": exts, "histories": nh}
+        return res
     if kind == "refusal":
         n = 0
         for cfg in data["cfgs"]:
@@ -171,7 +239,7 @@ def eval_case(kind, data):
             out = []
             gen = sysobj.generator
             for mg in gen:
-                out.append((mg.smiles, float(mg.weight), bool(mg.fully_generated)))
+                out.append((mg.smiles, heavy_mass(mg.smiles), bool(mg.fully_generated)))
                 if len(out) > 200:
                     return ("runaway", out)
             # the generator must be exhausted now
@@ -251,7 +319,7 @@ def eval_case(kind, data):
             out = []
             gen = obj.generator
             for mg in gen:
-                out.append((mg.smiles, float(mg.weight), bool(mg.fully_generated)))
+                out.append((mg.smiles, heavy_mass(mg.smiles), bool(mg.fully_generated)))
                 if k is not None and len(out) >= k:
                     break
                 if len(out) > 300:
